@@ -110,7 +110,16 @@ def concurrent_check(res, pid, cone, kinds, n_quick, n_thorough, oracle, known, 
             if fn.startswith(pid + "_") and fn.endswith(".json"):
                 w = json.load(open(os.path.join(cdir, fn)))
                 corpus.append((w["kind"], w["case"]))
-        runs = explore(res, kinds, n, allow_fail, extra_cases=corpus)
+        directed = []
+        if "cblock" in kinds:
+            # the cache write of a finished call fails at each of its HDF5 operations in turn
+            for k in range(1, 7):
+                for ops in ([["submit", 1], ["shutdown", True, False]], [["submit", 1], ["submit", 2], ["exit"]]):
+                    c = {"mode": "block", "workers": 1 if len(ops) == 2 else 2, "cache": True, "iofault": k,
+                         "calls": [{"raises": False}, {"raises": False}][:len(ops) - 1], "ops": ops,
+                         "schedule": lockstep.gen_schedule(res.rng, 600), "step_limit": 1500}
+                    directed.append(("cblock", c))
+        runs = explore(res, kinds, n, allow_fail, extra_cases=corpus + directed)
         res.cov["corpus_cases"] = len(corpus)
         compared, div, harness = (0, [], [])
         if ok:
